@@ -229,18 +229,23 @@ def run_sharded(pid, cases, timeout_s, extra_args=()):
             out, err = p.communicate()
             problems.append('worker %d: watchdog fired after %ds' % (i, timeout_s))
         if p.returncode != 0:
-            problems.append('worker %d: exit %s: %s' % (i, p.returncode, (err or b'').decode('utf-8', 'replace')[-1500:]))
+            tail = (err or b'').decode('utf-8', 'replace').strip().splitlines()[-3:]
+            problems.append('worker exit %s: %s' % (p.returncode, ' | '.join(t.strip() for t in tail)[-400:]))
         try:
             with open(fout) as f:
                 dumps.append(json.load(f))
         except Exception as ex:  # noqa: BLE001
-            problems.append('worker %d: no result (%s)' % (i, ex))
+            problems.append('worker produced no result (%s)' % type(ex).__name__)
         for fn in (fin, fout):
             try:
                 os.remove(fn)
             except OSError:
                 pass
-    return dumps, problems
+    uniq = []
+    for pr in problems:
+        if pr not in uniq:
+            uniq.append(pr)
+    return dumps, uniq[:6]
 
 
 def worker_main(pid, fin, fout, extra):
